@@ -67,7 +67,7 @@ class Skip(Exception):
     pass
 
 
-def call_op(case, A, B, number, large_angles=True):
+def call_op(case, A, B, number, large_angles=True, inplace_ok=False):
     """Invoke the public API for `case` on concrete operands A (and B).  Returns raw result."""
     op, p = case["op"], case["p"]
     hk = _h(case)
@@ -95,8 +95,14 @@ def call_op(case, A, B, number, large_angles=True):
         return A.to_beta3()
     if op == "scale":
         f = number(rat(p[0]))
+        if hk % 4 == 3 and inplace_ok:
+            A *= f               # in place: A was built for this call; the result stays in A's own system
+            return A
         return (A.scale(f), A * f, f * A)[hk % 3]
     if op == "divide":
+        if hk % 2 and inplace_ok:
+            A /= number(rat(p[0]))
+            return A
         return A / number(rat(p[0]))
     if op in ("scale2D", "scale3D"):
         return getattr(A, op)(number(rat(p[0])))
@@ -130,6 +136,13 @@ def call_op(case, A, B, number, large_angles=True):
         return A + B
     if op == "subtract" and hk % 3 == 0:
         return A - B
+    if op in ("add", "subtract") and hk % 3 == 1 and inplace_ok and len(coords.sig_of(A)) == len(coords.sig_of(B)):
+        # in place (same dimension required): the sum lands in A's own coordinate system
+        if op == "add":
+            A += B
+        else:
+            A -= B
+        return A
     if op == "dot" and hk % 3 == 0:
         return A @ B
     if op in BINARY:
@@ -409,7 +422,7 @@ def run_case(case, classes, number, tier, mode, tol):
         A = coords.build(classes, flavor, va, sa, number)
         B = coords.build(classes, "generic" if _h(case, "fb") % 2 else "momentum", vb, sb, number) if vb is not None else None
         try:
-            raw = call_op(case, A, B, number)
+            raw = call_op(case, A, B, number, inplace_ok=True)      # A and B are built for this one call
         except Exception as ex:  # the API is total on the lattice: an exception is a finding
             records.append({"kind": "error", "sig": [sa, sb], "error": f"{type(ex).__name__}: {ex}"[:300]})
             continue
